@@ -39,11 +39,12 @@ const (
 	SBool Sort = "B"
 	SStr  Sort = "S"
 	SReal Sort = "R"
+	SIter Sort = "T" // positions of range-over-string iterators (kept apart from program memory)
 )
 
 func (m Mode) smtSort(s Sort) string {
 	switch s {
-	case SI:
+	case SI, SIter:
 		if m == ModeBV {
 			return "(_ BitVec 64)"
 		}
